@@ -54,6 +54,11 @@ long long clock_now_ns() noexcept;            // scheduling point + virtual time
 long long clock_peek_ns() noexcept;           // virtual time, no scheduling point
 void sleep_until_ns(long long deadline_ns) noexcept;
 int epoll_wait_hook(int epfd, epoll_event* ev, int maxev, int timeout) noexcept;
+// generated I/O faults: the n-th readv (which=0) / writev (which=1) call of the case fails with `err` (>0) or transfers
+// half of what was asked (err<0).  Returns 0 when the call should go through unchanged.
+long io_fault(int which) noexcept;
+void set_io_fault(int which, long nth, long err) noexcept;   // nth < 0 disables
+long io_calls(int which) noexcept;
 
 // ---- called by harnesses ----------------------------------------------------
 struct Options {
